@@ -126,6 +126,151 @@ func c20(c *Ctx) {
 		os.RemoveAll(base)
 	}
 
+	// different directories, one cache directory, controlled overlap: P1 is held just before or just after its `go build`;
+	// P2 then either runs to completion or is itself held before its `go build` while P1 finishes; then P2 is released.
+	// Every window between "cache looked up", "binary written" and "binary executed" of one process is thereby overlapped
+	// with the start-up, the compile and the run of another one.
+	nsched := 2 + c.N/4
+	for i := 0; i < nsched; i++ {
+		base := filepath.Join(root, fmt.Sprintf("sched%d", i))
+		cacheDir := filepath.Join(base, "cache")
+		env := baseEnv(home)
+		for k, e := range env {
+			if strings.HasPrefix(e, "MAGEFILE_CACHE=") {
+				env[k] = "MAGEFILE_CACHE=" + cacheDir
+			}
+		}
+		identical := i%2 == 0 || r.Chance(1, 2)
+		tokA := tokens[r.Intn(len(tokens))]
+		tokB := tokA
+		if !identical {
+			for tokB == tokA {
+				tokB = tokens[r.Intn(len(tokens))]
+			}
+		}
+		dA, dB := filepath.Join(base, "dA"), filepath.Join(base, "dB")
+		writeFiles(dA, map[string]string{"go.mod": goMod("c20p"), "magefile.go": c20Magefile(tokA, statusOf[tokA])})
+		writeFiles(dB, map[string]string{"go.mod": goMod("c20p"), "magefile.go": c20Magefile(tokB, statusOf[tokB])})
+		p1After := i%4 < 2 || r.Bool()  // held after the build (the first rounds) or before it
+		p2Held := i%4 == 0 || r.Bool()   // P2 held before its build while P1 finishes
+		hfA, hfB := r.Bool(), r.Bool()
+		forceB := p2Held || r.Chance(1, 3) // a held P2 must reach `go build`
+		warm := !p2Held && r.Chance(1, 3)
+		cached := []string{}
+		if warm {
+			// a warm entry for B's contents only (A must compile to reach its pause point unless forced)
+			runCmd(dB, append(append([]string{}, env...), "MAGEFILE_HASHFAST=1"), mageBin, "token")
+			cached = append(cached, tokB)
+		}
+		mk := func(dir string, hf, force bool, pauseVar, mark, release string) (*exec.Cmd, *strings.Builder, *strings.Builder) {
+			argv := []string{"-gocmd", goWrap}
+			if force {
+				argv = append(argv, "-f")
+			}
+			cmd := exec.Command(mageBin, append(argv, "token")...)
+			cmd.Dir = dir
+			cmd.Env = append([]string{}, env...)
+			if hf {
+				cmd.Env = append(cmd.Env, "MAGEFILE_HASHFAST=1")
+			}
+			if pauseVar != "" {
+				cmd.Env = append(cmd.Env, pauseVar+"=build", "VT_GOMARK="+mark, "VT_GORELEASE="+release)
+			}
+			var o, e strings.Builder
+			cmd.Stdout, cmd.Stderr = &o, &e
+			return cmd, &o, &e
+		}
+		waitMark := func(mark string, done chan struct{}) {
+			for w := 0; w < 1200; w++ {
+				if _, err := os.Stat(mark); err == nil {
+					return
+				}
+				select {
+				case <-done:
+					return
+				default:
+				}
+				time.Sleep(50 * time.Millisecond)
+			}
+		}
+		statusOfErr := func(err error) int {
+			if err == nil {
+				return 0
+			}
+			if ee, ok := err.(*exec.ExitError); ok {
+				return ee.ExitCode()
+			}
+			return -1
+		}
+		m1, r1 := filepath.Join(base, "mark1"), filepath.Join(base, "release1")
+		m2, r2 := filepath.Join(base, "mark2"), filepath.Join(base, "release2")
+		pv := "VT_GOPAUSE"
+		if p1After {
+			pv = "VT_GOPAUSEAFTER"
+		}
+		p1, o1, e1 := mk(dA, hfA, true, pv, m1, r1)
+		st1, st2 := -1, -1
+		var o2, e2 *strings.Builder
+		if err := p1.Start(); err == nil {
+			done1 := make(chan struct{})
+			var err1 error
+			go func() { err1 = p1.Wait(); close(done1) }()
+			waitMark(m1, done1)
+			var p2 *exec.Cmd
+			if p2Held {
+				p2, o2, e2 = mk(dB, hfB, forceB, "VT_GOPAUSE", m2, r2)
+			} else {
+				p2, o2, e2 = mk(dB, hfB, forceB, "", "", "")
+			}
+			if err := p2.Start(); err == nil {
+				done2 := make(chan struct{})
+				var err2 error
+				go func() { err2 = p2.Wait(); close(done2) }()
+				if p2Held {
+					waitMark(m2, done2)
+					os.WriteFile(r1, nil, 0o644)
+					<-done1
+					os.WriteFile(r2, nil, 0o644)
+					<-done2
+				} else {
+					<-done2
+					os.WriteFile(r1, nil, 0o644)
+					<-done1
+				}
+				st2 = statusOfErr(err2)
+			} else {
+				os.WriteFile(r1, nil, 0o644)
+				<-done1
+			}
+			st1 = statusOfErr(err1)
+		}
+		ranOf := func(s string) string {
+			ran := "-"
+			for _, t := range tokens {
+				if strings.Contains(s, "TOKEN "+t+"\n") {
+					ran = t
+				}
+			}
+			return ran
+		}
+		resA := J{"status": st1, "ran": ranOf(o1.String())}
+		if st1 != statusOf[tokA] {
+			resA["stderr"] = strings.TrimSpace(e1.String())
+		}
+		resB := J{"status": st2, "ran": "-"}
+		if o2 != nil {
+			resB["ran"] = ranOf(o2.String())
+			if st2 != statusOf[tokB] {
+				resB["stderr"] = strings.TrimSpace(e2.String())
+			}
+		}
+		in := J{"op": "c20.par", "cached": cached, "seed": i + 1, "procs": []J{
+			{"dir": 0, "src": tokA, "hashfast": hfA, "force": true, "target": statusOf[tokA]},
+			{"dir": 1, "src": tokB, "hashfast": hfB, "force": forceB, "target": statusOf[tokB]}}}
+		c.Emit(in, J{"results": []J{resA, resB}}, "class=scheduled", fmt.Sprintf("identical=%v", identical), fmt.Sprintf("p1HeldAfterBuild=%v", p1After), fmt.Sprintf("p2HeldBeforeBuild=%v", p2Held), fmt.Sprintf("warm=%v", warm))
+		os.RemoveAll(base)
+	}
+
 	// same directory: P1's `go build` is held until P2 has come and gone
 	for i := 0; i < 1+c.N/10; i++ {
 		base := filepath.Join(root, fmt.Sprintf("same%d", i))
